@@ -210,6 +210,20 @@ def c19_family(tier):
                   "idx": 0, "hash": "h4", "ts": 105, "txid": "x33", "gas": "ample", "enc": "hex"})
         s.append({"op": "finalise", "ts": 105, "hash": "h4", "count": 2})
         out.append(s)
+    # blocks whose hash is server-generated (the indexer passes the zero hash): the randomness a contract sees is the generated
+    # hash of that block, for an inscription call, a signed transaction and a deposit alike
+    s = [{"op": "init", "hash": "zero", "ts": 100, "height": 0},
+         {"op": "tx", "via": "deploy", "from": "s1", "to": "NULL", "ckind": "probe", "ops": [], "lc": {"fn": "none"}, "insc": "zh0",
+          "idx": 0, "hash": "zero", "ts": 101, "gas": "ample", "txid": "x1", "enc": "hex"},
+         {"op": "finalise", "ts": 101, "hash": "zero", "count": 1}]
+    for b in (2, 3):
+        s.append({"op": "tx", "via": "call", "from": "s1", "to": "c_s1_0", "ckind": "NULL", "ops": [], "lc": {"fn": "none"}, "insc": "zh%da" % b,
+                  "idx": 0, "hash": "zero", "ts": 100 + b, "gas": "ample", "txid": "x%d" % (60 + b), "enc": "hex"})
+        s.append({"op": "transact", "signer": "k1", "nonce": b - 2, "to": "c_s1_0", "ckind": "NULL", "ops": [], "chain": "own", "insc": "zh%db" % b,
+                  "idx": 1, "hash": "zero", "ts": 100 + b, "txid": "x%d" % (70 + b), "gas": "ample", "enc": "hex"})
+        s.append({"op": "finalise", "ts": 100 + b, "hash": "zero", "count": 2})
+    s += [{"op": "commit"}, {"op": "restart"}]
+    out.append(s)
     return out
 
 
